@@ -157,7 +157,13 @@ impl<'a> Remote<'a> {
                     .with(|waker| cx.waker().will_wake(unsafe { (&*waker).assume_init_ref() }))
             {
                 // Waker is already up-to-date, leave it in place.
-                self.header().state.finish_setting_waker::<true>();
+                state = self.header().state.finish_setting_waker::<true>();
+
+                if state.is_completed() || state.is_cancelled() {
+                    // See below: nobody is going to wake us any more.
+                    continue;
+                }
+
                 break Poll::Pending;
             }
 
@@ -176,7 +182,16 @@ impl<'a> Remote<'a> {
                 waker.write(cx.waker().clone());
             });
 
-            self.header().state.finish_setting_waker::<true>();
+            state = self.header().state.finish_setting_waker::<true>();
+
+            // The executor keeps its hands off the waker while we are in the
+            // critical section: if the task has finished or has been dropped
+            // in the meantime, it has skipped the wake-up and will not come
+            // back, so the waker we have just stored would never be woken.
+            // Look at the task again instead of returning `Pending`.
+            if state.is_completed() || state.is_cancelled() {
+                continue;
+            }
 
             break Poll::Pending;
         }
